@@ -488,7 +488,7 @@ func (p Proj) Features() map[string]int {
 			f["tags"]++
 		case fl == "topologyhints" && v != "":
 			f["hints"]++
-			if strings.Contains(v, "cpus=\"\"") == false {
+			if strings.Contains(strings.ReplaceAll(v, `cpus=""`, ""), "cpus=") {
 				f["hints_cpus"]++
 			}
 		case fl == "affinity" && v != "" && v != "nopod" && v != "err":
